@@ -17,7 +17,13 @@ use gv_harness::*;
 use std::cmp::Ordering;
 use std::sync::Arc;
 
-const SCRATCH: &str = "/verif/.build/scratch/c17";
+/// scratch directory of the spill files; a tagged run (tools/seedtest.sh sets GV_OUT_TAG) gets its own
+fn scratch() -> String {
+    match std::env::var("GV_OUT_TAG") {
+        Ok(t) if !t.is_empty() => format!("/verif/.build/scratch/c17-{}", t),
+        _ => "/verif/.build/scratch/c17".to_string(),
+    }
+}
 
 // ------------------------------------------------------------------------------------------ values
 #[derive(Clone, Debug, PartialEq)]
@@ -1677,7 +1683,7 @@ fn dir_count(dir: &str) -> usize {
     std::fs::read_dir(dir).map(|d| d.count()).unwrap_or(0)
 }
 fn fresh_dir(name: &str) -> String {
-    let d = format!("{}/{}", SCRATCH, name);
+    let d = format!("{}/{}", scratch(), name);
     let _ = std::fs::remove_dir_all(&d);
     std::fs::create_dir_all(&d).unwrap();
     d
@@ -2110,8 +2116,8 @@ fn main() {
     let mut out = Out::create(args.out.as_deref());
     let thorough = args.tier == "thorough";
     let scale = |n: usize| (n * args.cases / 2000).max(1);
-    let _ = std::fs::remove_dir_all(SCRATCH);
-    std::fs::create_dir_all(SCRATCH).unwrap();
+    let _ = std::fs::remove_dir_all(scratch());
+    std::fs::create_dir_all(scratch()).unwrap();
 
     // ---- corpus: the witnesses of the _refuted theorems and the boundary tables
     let i = |k: i64, p: i64| vec![V::Int(k), V::Int(p), V::Null];
@@ -2246,13 +2252,13 @@ fn main() {
     // the spill directories must be empty at the end
     let mut left = 0;
     for sub in ["corpus", "extsort", "files", "partition"] {
-        left += dir_count(&format!("{}/{}", SCRATCH, sub));
+        left += dir_count(&format!("{}/{}", scratch(), sub));
     }
     out.emit(&Case {
         kind: "scratch_listing".into(),
-        input: SCRATCH.into(),
+        input: scratch(),
         oracle: ok_or(left == 0),
-        msg: if left == 0 { String::new() } else { format!("{} spill files left under {}", left, SCRATCH) },
+        msg: if left == 0 { String::new() } else { format!("{} spill files left under {}", left, scratch()) },
         nontrivial: false,
         imp: format!("{} files", left),
         ..Default::default()
